@@ -271,7 +271,7 @@ where
             verif::set_generation(*v as usize);
             "ok".into()
         }
-        Op::RcuPanic { .. } | Op::New1 { .. } | Op::Mk1 { .. } | Op::Store1 { .. } | Op::DropH1 { .. } => "skip".into(),
+        Op::RcuPanic { .. } | Op::CasV { .. } | Op::New1 { .. } | Op::Mk1 { .. } | Op::Store1 { .. } | Op::DropH1 { .. } => "skip".into(),
     }
 }
 
